@@ -14,3 +14,7 @@ func Gosched() {
 	}
 	runtime.Gosched()
 }
+
+// Go replaces a `go` statement of the code under test: under the controlled scheduler the new
+// goroutine is a scheduled thread, otherwise a plain goroutine.
+func Go(fn func()) { sched.Go(fn) }
